@@ -21,6 +21,11 @@ RULE = (
 RULE += (
     ' Added after seeded round 9: 257-1000 k bins on small meshes (modes far beyond bin 255).'
 )
+RULE += (
+    ' Added after seeded round 10: call history through calc_pk_from_deltak -- consecutive calls in one process with the same nmesh, Lbox, number of k bins and first / last k edge '
+    'but other interior k edges (linear, log, quadratic, random), other mu edge values or Nmu, other multipoles, another field or a cross-spectrum, in three different orders; '
+    'every returned quantity (power, N_mode, k_avg, binned_poles, N_mode_poles) of every call compared with the enumeration of that call and with the same request made elsewhere in the sequence.'
+)
 ASSUMPTIONS = [
     'mu edges partition [0,1]; k edges strictly increasing (documented domain)',
     'a mode whose k^2 or mu^2 equals an edge (within 4 ulp of the working dtype) may be counted on either side of that edge, but exactly once',
@@ -442,6 +447,135 @@ def big_bin_case(run, ps, n, nthread):
         run.violation('mode-count-inexact-beyond-2^24', dict(count_got=int(np.asarray(cnt).sum()), count_poles_got=int(np.asarray(cntp).sum()), count_expected=exp, **desc))
 
 
+def deltak_against_reference(P, ref, L, poles, Nk, Nmu):
+    """Every quantity calc_pk_from_deltak returns against the full-mesh enumeration (float32 path); None or a witness dict.
+    N_mode is checked by compare_counts; bins touched by an edge tie are skipped here."""
+    cnt = ref['count']
+    clean = ref['maxextra'] == 0
+    cleank = clean.all(axis=1)
+    cp = cnt.sum(axis=1)
+    for name in ('power', 'N_mode', 'k_avg'):
+        if np.shape(P[name]) != (Nk, Nmu):
+            return dict(output=name, problem='shape', shape=list(np.shape(P[name])), expected_shape=[Nk, Nmu])
+    with np.errstate(invalid='ignore', divide='ignore'):
+        mean = np.where(cnt > 0, ref['sum'] / np.maximum(cnt, 1), 0) * L**3
+        meanabs = np.where(cnt > 0, ref['sumabs'] / np.maximum(cnt, 1), 0) * L**3
+        kavg = np.where(cnt > 0, ref['sumk'] / np.maximum(cnt, 1), 0)
+    bad = (np.abs(np.asarray(P['power'], dtype=np.float64) - mean) > 2e-4 * meanabs + 1e-6 * L**3) & clean
+    if bad.any():
+        i = tuple(np.argwhere(bad)[0])
+        return dict(output='power', bin=[int(x) for x in i], got=float(P['power'][i]), expected=float(mean[i]))
+    bad = ~np.isclose(np.asarray(P['k_avg'], dtype=np.float64), kavg, rtol=2e-4, atol=1e-9) & clean
+    if bad.any():
+        i = tuple(np.argwhere(bad)[0])
+        return dict(output='k_avg', bin=[int(x) for x in i], got=float(P['k_avg'][i]), expected=float(kavg[i]), modes_in_bin=int(cnt[i]))
+    if len(poles):
+        bpo = np.asarray(P['binned_poles'], dtype=np.float64)
+        if bpo.shape != (len(poles), Nk):
+            return dict(output='binned_poles', problem='shape', shape=list(bpo.shape))
+        if not np.array_equal(np.asarray(P['N_mode_poles'])[cleank], cp[cleank]):
+            return dict(output='N_mode_poles', got=np.asarray(P['N_mode_poles'])[:8], expected=cp[:8])
+        for ip, l in enumerate(poles):
+            with np.errstate(invalid='ignore', divide='ignore'):
+                exp = np.where(cp > 0, ref['sumpoles'][ip] / np.maximum(cp, 1), 0) * L**3
+                tol = 2e-4 * np.where(cp > 0, ref['sumpoles_abs'][ip] / np.maximum(cp, 1), 0) * L**3 + 1e-6
+            bad = (np.abs(bpo[ip] - exp) > tol) & cleank
+            if bad.any():
+                i = int(np.argwhere(bad)[0][0])
+                return dict(output='binned_poles', pole=int(l), kbin=i, got=float(bpo[ip][i]), expected=float(exp[i]))
+    return None
+
+
+def call_history_case(run, ps, rng, n, L, Nk, Nmu, nthread):
+    """Call history through the public entry point: many calc_pk_from_deltak calls in this one process that share the mesh
+    size, the box, the number of k bins and the first / last k edge, but differ in the interior k edges (linear, log,
+    quadratic, random), in the mu edges (same Nmu other values; another Nmu), in the multipoles, in the field (another
+    field; a cross-spectrum).  The requests are made in one order, then shuffled, then reversed, so each request is made
+    after several different predecessors.  Oracles: (a) every returned quantity of every call against the full-mesh
+    enumeration of *that* call's binning and field; (b) the same request returns the same values wherever it stands in the
+    sequence (counts exactly, float32 means to 1e-4 of their scale).  Nothing remembered from an earlier call may show."""
+    dk = 2 * np.pi / L
+    kN = dk * n / 2
+    kmin = rng.uniform(0.31, 0.97) * dk
+    kmax = rng.uniform(0.62, 1.45) * kN
+    t = np.linspace(0.0, 1.0, Nk + 1)
+    kfam = dict(
+        lin=kmin + (kmax - kmin) * t,
+        log=np.geomspace(kmin, kmax, Nk + 1),
+        quad=kmin + (kmax - kmin) * t**2,
+        rnd=np.concatenate([[kmin], np.sort(rng.uniform(kmin, kmax, Nk - 1)), [kmax]]),
+    )
+    for e in kfam.values():
+        e[0], e[-1] = kmin, kmax  # identical end points, bit for bit
+    u = np.linspace(0.0, 1.0, Nmu + 1)
+    mufam = dict(lin=u, sqrt=np.sqrt(u), rnd=np.concatenate([[0.0], np.sort(rng.uniform(0.03, 0.97, Nmu - 1)), [1.0]]), more=np.linspace(0.0, 1.0, Nmu + 2))
+    kz = n // 2 + 1
+    fields = [(rng.standard_normal((n, n, kz)) + 1j * rng.standard_normal((n, n, kz))).astype(np.complex64) for _ in range(2)]
+    A, B, C_ = (0, 2, 4), (0,), (4, 2, 0)
+    # (k edges, mu edges, poles, field, cross with the other field)
+    requests = [
+        ('lin', 'lin', A, 0, False),
+        ('log', 'lin', A, 0, False),  # only the interior k edges change
+        ('log', 'sqrt', A, 0, False),  # only the mu edge values change
+        ('rnd', 'rnd', B, 1, False),
+        ('lin', 'lin', A, 1, False),  # only the field changes
+        ('quad', 'more', C_, 0, False),  # another Nmu, another order of multipoles
+        ('lin', 'lin', A, 0, True),  # cross-spectrum on the binning of the first request
+        ('quad', 'sqrt', (), 1, False),
+        ('log', 'rnd', B, 1, True),
+    ]
+    refs = []
+    for kf_, mf_, poles, fi, cross in requests:
+        f = fields[fi].astype(np.complex128)
+        w = (np.conj(f) * fields[1 - fi].astype(np.complex128)).real if cross else np.abs(f) ** 2
+        ref = reference(n, L, kfam[kf_], mufam[mf_], w, 'kmu', poles)
+        ref['sumabs'] = reference(n, L, kfam[kf_], mufam[mf_], np.abs(w), 'kmu')['sum']
+        refs.append(ref)
+    R = len(requests)
+    order = list(range(R)) + [int(x) for x in rng.permutation(R)] + list(range(R))[::-1]
+    first = {}
+    prev = None
+    for pos, r in enumerate(order):
+        kf_, mf_, poles, fi, cross = requests[r]
+        kedges, muedges = kfam[kf_], mufam[mf_]
+        desc = dict(
+            kernel='calc_pk_from_deltak', n=n, L=L, Nk=Nk, Nmu=len(muedges) - 1, nthread=nthread, position_in_sequence=pos,
+            request=dict(k_edges=kf_, mu_edges=mf_, poles=list(poles), field=fi, cross=cross),
+            previous_request=None if prev is None else dict(zip(('k_edges', 'mu_edges', 'poles', 'field', 'cross'), requests[prev])),
+            kedges_over_kf=(kedges / dk).tolist(), muedges=muedges.tolist(),
+        )
+        run.ev()
+        run.progress(desc)
+        with warnings.catch_warnings():
+            warnings.simplefilter('ignore')
+            P = ps.calc_pk_from_deltak(fields[fi], L, kedges, muedges, field2_fft=fields[1 - fi] if cross else None, poles=np.array(poles, dtype=np.int64), nthread=nthread)
+        P = {k_: np.array(v, copy=True) for k_, v in P.items()}
+        run.count('calls_with_history', 1)
+        if (refs[r]['count'] > 0).sum() >= 2:
+            run.nt(('history', n, Nk, Nmu, nthread, pos, r))
+        if np.shape(P['N_mode']) == refs[r]['count'].shape and compare_counts(run, P['N_mode'], refs[r], desc, 'deltak-result-depends-on-call-history'):
+            return True
+        wit = deltak_against_reference(P, refs[r], L, poles, Nk, len(muedges) - 1)
+        if wit is not None:
+            return run.violation('deltak-result-depends-on-call-history', dict(oracle='full-mesh enumeration of this call', **wit, **desc))
+        if r not in first:
+            first[r] = (pos, P)
+        else:
+            pos0, P0 = first[r]
+            for name in ('N_mode', 'N_mode_poles', 'power', 'k_avg', 'binned_poles'):
+                a, b = np.asarray(P[name]), np.asarray(P0[name])
+                if a.shape != b.shape:
+                    same = False
+                elif name.startswith('N_mode'):
+                    same = np.array_equal(a, b)
+                else:
+                    same = a.size == 0 or bool(np.allclose(a, b, rtol=1e-4, atol=1e-4 * float(np.abs(b).max()) + 1e-30))
+                if not same:
+                    return run.violation('deltak-result-depends-on-call-history', dict(oracle='the same request earlier in this process', output=name, earlier_position=pos0, got=a.ravel()[:6], earlier=b.ravel()[:6], **desc))
+        prev = r
+    return False
+
+
 def check(run):
     from abacusnbody.analysis import power_spectrum as ps
 
@@ -510,6 +644,14 @@ def check(run):
         # a single multipole; the highest documented order (10); an unsorted mix
         deltak_case(run, ps, rng, n, [250.0, 3.0][n % 2], [16, 1, 4][n % 3], [(0,), (2,), (10,), (4,)][n % 4])
         deltak_case(run, ps, rng, n, 100.0, 4, [(0, 10), (6, 8, 10), (10, 4)][n % 3])
+    # call history through calc_pk_from_deltak (own random stream; after all the other workload)
+    hrng = run.rng(10)
+    hist = [(12, 5, 3, 1), (6, 3, 2, 4), (9, 4, 3, 16), (16, 8, 4, 2), (7, 6, 5, 3)]
+    if not run.quick:
+        hist += [(int(hrng.integers(5, 25)), int(hrng.integers(2, 11)), int(hrng.integers(2, 7)), int(hrng.integers(1, 17))) for _ in range(25)]
+    for n, Nk, Nmu, nthread in hist:
+        if call_history_case(run, ps, hrng, n, float(hrng.choice([100.0, 2 * np.pi, 1.0, 737.5])), Nk, Nmu, nthread):
+            break
 
 
 def replay(run, data):
